@@ -87,6 +87,7 @@ REGISTRY = {
     "c10": "dst.monitors.c10:C10Monitor",
     "c19": "dst.monitors.c19:C19Monitor",
     "c07": "dst.monitors.c07:C07Monitor",
+    "c20": "dst.monitors.c20:C20Monitor",
 }
 
 
